@@ -36,6 +36,7 @@ const MSTOREW: u8 = Operation::MStoreW.op_code();
 const MLOAD: u8 = Operation::MLoad.op_code();
 const MSTORE: u8 = Operation::MStore.op_code();
 const MSTREAM: u8 = Operation::MStream.op_code();
+const PIPE: u8 = Operation::Pipe.op_code();
 const RCOMBBASE: u8 = Operation::RCombBase.op_code();
 const HPERM: u8 = Operation::HPerm.op_code();
 const MPVERIFY: u8 = Operation::MpVerify.op_code();
@@ -86,9 +87,10 @@ impl<E: FieldElement<BaseField = Felt>> AuxColumnBuilder<E> for BusColumnBuilder
         let op_code = op_code_felt.as_int() as u8;
 
         match op_code {
-            JOIN | SPLIT | LOOP | DYN | CALL => {
+            JOIN | SPLIT | LOOP | CALL => {
                 build_control_block_request(main_trace, op_code_felt, alphas, row)
             }
+            DYN => build_dyn_block_request(main_trace, op_code_felt, alphas, row),
             SYSCALL => build_syscall_block_request(main_trace, op_code_felt, alphas, row),
             SPAN => build_span_block_request(main_trace, alphas, row),
             RESPAN => build_respan_block_request(main_trace, alphas, row),
@@ -100,6 +102,7 @@ impl<E: FieldElement<BaseField = Felt>> AuxColumnBuilder<E> for BusColumnBuilder
             MLOAD => build_mem_request_element(main_trace, MEMORY_READ_LABEL, alphas, row),
             MSTORE => build_mem_request_element(main_trace, MEMORY_WRITE_LABEL, alphas, row),
             MSTREAM => build_mstream_request(main_trace, alphas, row),
+            PIPE => build_pipe_request(main_trace, alphas, row),
             RCOMBBASE => build_rcomb_base_request(main_trace, alphas, row),
             HPERM => build_hperm_request(main_trace, alphas, row),
             MPVERIFY => build_mpverify_request(main_trace, alphas, row),
@@ -282,6 +285,26 @@ fn build_control_block_request<E: FieldElement<BaseField = Felt>>(
     header + build_value(&alphas[8..16], &state) + alphas[5].mul_base(op_code_felt)
 }
 
+/// Builds requests made to the hasher chiplet when initializing a DYN block. The hash of a DYN
+/// block is computed from two empty words (the decoder hasher state columns of a DYN row hold the
+/// hash of the callee instead).
+fn build_dyn_block_request<E: FieldElement<BaseField = Felt>>(
+    main_trace: &MainTrace,
+    op_code_felt: Felt,
+    alphas: &[E],
+    row: usize,
+) -> E {
+    let op_label = LINEAR_HASH_LABEL;
+    let addr_nxt = main_trace.addr(row + 1);
+    let first_cycle_row = addr_to_row_index(addr_nxt) % HASH_CYCLE_LEN == 0;
+    let transition_label = if first_cycle_row { op_label + 16 } else { op_label + 32 };
+
+    let header =
+        alphas[0] + alphas[1].mul_base(Felt::from(transition_label)) + alphas[2].mul_base(addr_nxt);
+
+    header + alphas[5].mul_base(op_code_felt)
+}
+
 /// Builds requests made to kernel ROM chiplet when initializing a syscall block.
 fn build_syscall_block_request<E: FieldElement<BaseField = Felt>>(
     main_trace: &MainTrace,
@@ -339,8 +362,12 @@ fn build_respan_block_request<E: FieldElement<BaseField = Felt>>(
         + alphas[2].mul_base(addr_nxt - ONE)
         + alphas[3].mul_base(ZERO);
 
-    let state = &main_trace.chiplet_hasher_state(row - 2)[CAPACITY_LEN..];
-    let state_nxt = &main_trace.chiplet_hasher_state(row - 1)[CAPACITY_LEN..];
+    // the absorption happens between the last row of the previous permutation cycle of this
+    // span's linear hash and the first row of the next one; these are rows of the hasher chiplet
+    // identified by the hasher address, not by the decoder row at which RESPAN is executed
+    let hasher_row_nxt = addr_to_row_index(addr_nxt);
+    let state = &main_trace.chiplet_hasher_state(hasher_row_nxt - 1)[CAPACITY_LEN..];
+    let state_nxt = &main_trace.chiplet_hasher_state(hasher_row_nxt)[CAPACITY_LEN..];
 
     header + build_value(&alphas[8..16], state_nxt) - build_value(&alphas[8..16], state)
 }
@@ -442,6 +469,36 @@ fn build_mstream_request<E: FieldElement<BaseField = Felt>>(
     ];
     let addr = main_trace.stack_element(12, row);
     let op_label = MEMORY_READ_LABEL;
+
+    let factor1 = compute_memory_request(main_trace, op_label, alphas, row, addr, word1);
+    let factor2 = compute_memory_request(main_trace, op_label, alphas, row, addr + ONE, word2);
+
+    factor1 * factor2
+}
+
+/// Builds `PIPE` requests made to the memory chiplet.
+///
+/// `PIPE` writes two words taken from the advice stack to memory at `addr` and `addr + 1`; the
+/// same words end up in the top 8 stack positions of the next row.
+fn build_pipe_request<E: FieldElement<BaseField = Felt>>(
+    main_trace: &MainTrace,
+    alphas: &[E],
+    row: usize,
+) -> E {
+    let word1 = [
+        main_trace.stack_element(7, row + 1),
+        main_trace.stack_element(6, row + 1),
+        main_trace.stack_element(5, row + 1),
+        main_trace.stack_element(4, row + 1),
+    ];
+    let word2 = [
+        main_trace.stack_element(3, row + 1),
+        main_trace.stack_element(2, row + 1),
+        main_trace.stack_element(1, row + 1),
+        main_trace.stack_element(0, row + 1),
+    ];
+    let addr = main_trace.stack_element(12, row);
+    let op_label = MEMORY_WRITE_LABEL;
 
     let factor1 = compute_memory_request(main_trace, op_label, alphas, row, addr, word1);
     let factor2 = compute_memory_request(main_trace, op_label, alphas, row, addr + ONE, word2);
